@@ -177,4 +177,150 @@ theorem searchWave_fuel_enough (g : Geo) (all : List Nat) (leaf : QTree) (p : Pt
   · have := waveMu_le all leaf.elements; omega
   · exact waveMu_le all leaf.elements
 
+/-! ## G. `search_wave` is a complete breadth-first search of the admissible neighbour graph -/
+
+/-- the neighbours `search_wave` is willing to visit from `x`: in `all_elements`, bounding box
+    meeting the leaf rectangle -/
+def admissible (g : Geo) (all : List Nat) (b : Rect) (x : Nat) : List Nat :=
+  ((g.nbrs x).filter fun n => all.contains n).filter fun n => rectanglesIntersect (g.bbox n) b
+
+/-- `x` reaches `c` through admissible steps without touching `done` -/
+inductive AvoidReach (g : Geo) (all : List Nat) (b : Rect) (c : Nat) (done : List Nat) : Nat → Prop
+  | base : c ∉ done → AvoidReach g all b c done c
+  | step {x n : Nat} : x ∉ done → n ∈ admissible g all b x → AvoidReach g all b c done n → AvoidReach g all b c done x
+
+theorem AvoidReach.not_done {g : Geo} {all : List Nat} {b : Rect} {c : Nat} {done : List Nat} {x : Nat}
+    (h : AvoidReach g all b c done x) : x ∉ done := by
+  cases h with
+  | base h => exact h
+  | step h _ _ => exact h
+
+/-- moving `elt ≠ c` to `done`: either `x` still reaches `c`, or an admissible neighbour of `elt` does -/
+theorem AvoidReach.push {g : Geo} {all : List Nat} {b : Rect} {c : Nat} {done : List Nat} {elt : Nat} (hne : c ≠ elt) {x : Nat}
+    (h : AvoidReach g all b c done x) :
+    AvoidReach g all b c (done ++ [elt]) x ∨ ∃ m ∈ admissible g all b elt, AvoidReach g all b c (done ++ [elt]) m := by
+  induction h with
+  | base hc =>
+    left; apply AvoidReach.base
+    simp only [List.mem_append, List.mem_singleton, not_or]
+    exact ⟨hc, hne⟩
+  | @step x n hx hn _ ih =>
+    rcases ih with ih | ih
+    · by_cases hxe : x = elt
+      · right; subst hxe; exact ⟨n, hn, ih⟩
+      · left
+        apply AvoidReach.step _ hn ih
+        simp only [List.mem_append, List.mem_singleton, not_or]
+        exact ⟨hx, hxe⟩
+    · right; exact ih
+
+theorem subset_waveStep {g : Geo} {b : Rect} {done : List Nat} : ∀ (nb todo : List Nat) (x : Nat),
+    x ∈ todo → x ∈ waveStep g b done todo nb := by
+  intro nb
+  induction nb with
+  | nil => intro todo x h; exact h
+  | cons n t ih =>
+    intro todo x h
+    unfold waveStep
+    simp only [List.foldl_cons]
+    split
+    · have := ih (todo ++ [n]) x (List.mem_append_left _ h)
+      unfold waveStep at this; exact this
+    · have := ih todo x h
+      unfold waveStep at this; exact this
+
+theorem mem_waveStep {g : Geo} {b : Rect} {done : List Nat} : ∀ (nb todo : List Nat) (m : Nat),
+    m ∈ nb → rectanglesIntersect (g.bbox m) b = true → m ∉ done → m ∈ waveStep g b done todo nb := by
+  intro nb
+  induction nb with
+  | nil => intro todo m h; cases h
+  | cons n t ih =>
+    intro todo m hm hint hnd
+    simp only [List.mem_cons] at hm
+    unfold waveStep
+    simp only [List.foldl_cons]
+    rcases hm with rfl | hm
+    · split
+      · have := subset_waveStep (g := g) (b := b) (done := done) t (todo ++ [m]) m (by simp)
+        unfold waveStep at this; exact this
+      · rename_i hcond
+        -- the condition failed although m meets the rectangle and is not done: m is already in todo
+        have hin : m ∈ todo := by
+          simp only [hint, Bool.true_and, Bool.not_eq_true', Bool.or_eq_false_iff, not_and,
+            List.contains_eq_mem, decide_eq_false_iff_not] at hcond
+          exact Classical.not_not.mp (hcond hnd)
+        have := subset_waveStep (g := g) (b := b) (done := done) t todo m hin
+        unfold waveStep at this; exact this
+    · split
+      · have := ih (todo ++ [n]) m hm hint hnd
+        unfold waveStep at this; exact this
+      · have := ih todo m hm hint hnd
+        unfold waveStep at this; exact this
+
+/-- with enough fuel, if some element of `todo` reaches `c` avoiding `done`, the loop returns `c` -/
+theorem searchWaveLoop_complete {g : Geo} {all : List Nat} {b : Rect} {p : Pt} {c : Nat}
+    (hu : UniqueAt g p) (hc : g.containsPoint c p = true) :
+    ∀ (fuel : Nat) (todo done : List Nat), waveMu all todo done < fuel →
+      (∃ t ∈ todo, AvoidReach g all b c done t) → searchWaveLoop g all b p fuel todo done = some c := by
+  intro fuel
+  induction fuel with
+  | zero => intro todo done h; omega
+  | succ n ih =>
+    intro todo done hfuel ⟨t, ht, hreach⟩
+    cases todo with
+    | nil => cases ht
+    | cons elt rest =>
+      simp only [searchWaveLoop]
+      split
+      · rename_i he
+        rw [hu elt c he hc]
+      · rename_i he
+        have hne : c ≠ elt := fun h => he (h ▸ hc)
+        have hstep := waveMu_waveStep (g := g) (b := b) (done := done ++ [elt])
+          ((g.nbrs elt).filter fun n => all.contains n) rest (by intro n hn; exact (List.mem_filter.mp hn).2)
+        have hpop := waveMu_pop all rest done elt
+        apply ih _ _ (by omega)
+        rcases hreach.push hne with h | ⟨m, hm, h⟩
+        · have htne : t ≠ elt := by
+            intro hte
+            have := h.not_done
+            simp only [List.mem_append, List.mem_singleton, not_or] at this
+            exact this.2 hte
+          have : t ∈ rest := by
+            simp only [List.mem_cons] at ht
+            rcases ht with ht | ht
+            · exact absurd ht htne
+            · exact ht
+          exact ⟨t, subset_waveStep _ _ _ this, h⟩
+        · unfold admissible at hm
+          rw [List.mem_filter] at hm
+          exact ⟨m, mem_waveStep _ _ _ hm.1 hm.2 h.not_done, h⟩
+
+/-- **completeness of the quadtree search, relative to the neighbour graph**: if the column that
+    contains the point is reachable from an element of the point's leaf through neighbours that are in
+    the tree and whose bounding boxes meet the leaf rectangle, `qtree.search` returns it. -/
+theorem search_complete_of_reachable {g : Geo} {q : QT} {p : Pt} {c : Nat} {l : QTree}
+    (hu : UniqueAt g p) (hc : g.containsPoint c p = true) (hl : q.root.leaf p = some l)
+    (hr : ∃ e ∈ l.elements, AvoidReach g q.all l.bounds c [] e) : q.search g p = some c := by
+  unfold QT.search
+  rw [hl]
+  unfold searchWave
+  exact searchWaveLoop_complete hu hc _ _ _ (waveMu_le _ _) hr
+
+/-- the same through `column_containing_point`, with any guess and any column subset -/
+theorem guessSearch_complete_qtree {g : Geo} {q : QT} {p : Pt} {c : Nat} {l : QTree} {sc : List Nat} {gu : Option Nat}
+    (hu : UniqueAt g p) (hc : g.containsPoint c p = true) (hl : q.root.leaf p = some l)
+    (hr : ∃ e ∈ l.elements, AvoidReach g q.all l.bounds c [] e) : guessSearch g p sc gu (some q) = some c := by
+  have hs := search_complete_of_reachable hu hc hl hr
+  unfold guessSearch
+  cases gu with
+  | none => simp only [fullSearch, hs]
+  | some gu =>
+    simp only
+    split
+    · rename_i hg; rw [hu gu c hg hc]
+    · split
+      · rename_i c' hf; rw [hu c' c (firstContaining_sound hf) hc]
+      · simp only [fullSearch, hs]
+
 end Proofs.Locate
